@@ -994,17 +994,24 @@ func (conf *Conf) Validate(l logger.Writer) error {
 			"and has been replaced with 'webrtcICEServers2'")
 
 		for _, server := range *conf.WebRTCICEServers {
+			var converted WebRTCICEServer
+
 			parts := strings.Split(server, ":")
 			if len(parts) == 5 {
-				conf.WebRTCICEServers2 = append(conf.WebRTCICEServers2, WebRTCICEServer{
+				converted = WebRTCICEServer{
 					URL:      parts[0] + ":" + parts[3] + ":" + parts[4],
 					Username: parts[1],
 					Password: parts[2],
-				})
+				}
 			} else {
-				conf.WebRTCICEServers2 = append(conf.WebRTCICEServers2, WebRTCICEServer{
+				converted = WebRTCICEServer{
 					URL: server,
-				})
+				}
+			}
+
+			// Validate() runs again on every API edit: do not add the same server twice
+			if !slices.Contains(conf.WebRTCICEServers2, converted) {
+				conf.WebRTCICEServers2 = append(conf.WebRTCICEServers2, converted)
 			}
 		}
 	}
